@@ -212,7 +212,7 @@ func (nv *nodeVariable) Execute(ctx *ExecutionContext, writer TemplateWriter) *E
 		return err
 	}
 
-	if !nv.expr.FilterApplied("safe") && !value.safe && value.IsString() && ctx.Autoescape {
+	if !nv.expr.FilterApplied("safe") && !value.safe && (value.IsString() || value.isStringer()) && ctx.Autoescape {
 		// apply escape filter
 		value, err = filters["escape"](value, nil)
 		if err != nil {
